@@ -64,6 +64,8 @@ def mu (s : State) : Nat × Nat :=
 /-- lexicographic order on the measure -/
 def LexLt (a b : Nat × Nat) : Prop := a.1 < b.1 ∨ (a.1 = b.1 ∧ a.2 < b.2)
 
+instance (a b : Nat × Nat) : Decidable (LexLt a b) := by unfold LexLt; exact inferInstance
+
 /-! ## event classes -/
 
 /-- structure events of the environment: fork expansion / fork order, and the
@@ -117,9 +119,12 @@ structure Run (s0 : State) (σ : Nat → State) (es : Nat → Ev) : Prop where
   next : ∀ i, σ (i + 1) = apply (σ i) (es i)
 
 /-- weak fairness towards the scheduler/job alphabet as a whole: the run never
-stutters for ever while some progress event is enabled -/
+stutters for ever (the environment may repeat `stepend`, `refresh`, `killed`,
+re-reads of known files, … as often as it likes) while the pipestance is unfinished
+and some progress event is enabled -/
 def Fair (σ : Nat → State) : Prop :=
-  ∀ i, (∃ e, Progress (σ i) e) → ∃ j, i ≤ j ∧ LexLt (mu (σ (j + 1))) (mu (σ j))
+  ∀ i, ¬ Finished (σ i) → (∃ e, Progress (σ i) e) →
+    ∃ j, i ≤ j ∧ LexLt (mu (σ (j + 1))) (mu (σ j))
 
 /-! ## `Node.getFatalError` -/
 
